@@ -438,7 +438,8 @@ func (p *Project) Render(opts RenderOpts) *Rendered {
 				for _, bl := range strings.Split(strings.TrimRight(bodyText, "\n"), "\n") {
 					b.line(bl)
 				}
-				b.line("}")
+				end := b.line("}")
+				out.Positions[key+"/decl"] = Pos{File: mPath, Line: ln, Col: 0, EndLine: end, EndCol: 1}
 				b.line("")
 			})
 		}
